@@ -1834,6 +1834,14 @@ func (g *vcgen) builtin(v ssa.Value, b *ssa.Builtin, c *ssa.CallCommon, args []s
 func (g *vcgen) chanSend(ch, x ssa.Value) {
 	g.val(ch)
 	g.val(x)
+	for _, ci := range g.eng.chanInvsFor(ch) {
+		t, err := g.chanInvTerm(ci, g.val(x), x.Type())
+		if err != nil {
+			g.unsupported("chaninv %s: %v", ci.Ref, err)
+			continue
+		}
+		g.oblige("chaninv", ci.Ref, t, "every value sent on "+ci.Ref+" satisfies "+ci.Src)
+	}
 	g.emitChanEventsVal("send", ch, "true", x)
 }
 
@@ -1845,9 +1853,11 @@ func (g *vcgen) chanRecv(x *ssa.UnOp) {
 		ok := g.freshConst("recvok", "Bool")
 		g.assume(fmt.Sprintf("(=> (not %s) (= %s %s))", ok, v, g.s.zero(et)))
 		g.tup[x] = []string{v, ok}
+		g.assumeChanInv(x.X, v, ok)
 		return
 	}
 	g.setValFresh(x)
+	g.assumeChanInv(x.X, g.vals[x], "true")
 }
 
 func (g *vcgen) selectOp(x *ssa.Select) {
@@ -1866,10 +1876,22 @@ func (g *vcgen) selectOp(x *ssa.Select) {
 		}
 		g.emitChanEventsVal(kind, st.Chan, fmt.Sprintf("(= %s %d)", idx, i), st.Send) // the case that was chosen
 	}
-	for _, st := range x.States {
+	for i, st := range x.States {
 		if st.Dir == types.RecvOnly {
 			et := st.Chan.Type().Underlying().(*types.Chan).Elem()
-			res = append(res, g.freshOfType("sel.recv", et))
+			rv := g.freshOfType("sel.recv", et)
+			res = append(res, rv)
+			g.assumeChanInv(st.Chan, rv, fmt.Sprintf("(= %s %d)", idx, i))
+		} else if st.Send != nil {
+			// a send case: the invariant is owed only if this case is the one chosen
+			for _, ci := range g.eng.chanInvsFor(st.Chan) {
+				t, err := g.chanInvTerm(ci, g.val(st.Send), st.Send.Type())
+				if err != nil {
+					g.unsupported("chaninv %s: %v", ci.Ref, err)
+					continue
+				}
+				g.oblige("chaninv", ci.Ref, fmt.Sprintf("(=> (= %s %d) %s)", idx, i, t), "every value sent on "+ci.Ref+" satisfies "+ci.Src)
+			}
 		}
 	}
 	g.tup[x] = res
@@ -2077,7 +2099,9 @@ func chanFieldKey(ch ssa.Value) string {
 	}
 }
 
-func (e *Engine) chanEventsFor(kind string, ch ssa.Value) []*EventDecl {
+// chanKey: how contracts refer to the channel a value denotes (struct field, local variable of a function and its
+// closures, or the result of a call)
+func chanKey(ch ssa.Value) string {
 	key := chanFieldKey(ch)
 	if key == "" {
 		// a channel held in a local (possibly captured) variable: "local:<function>.<variable>"
@@ -2093,6 +2117,95 @@ func (e *Engine) chanEventsFor(kind string, ch ssa.Value) []*EventDecl {
 			}
 		}
 	}
+	return key
+}
+
+func chanRefMatches(ref, key string) bool {
+	return ref == key || strings.HasSuffix(key, "."+ref) || strings.HasSuffix(key, "/"+ref) ||
+		(strings.HasPrefix(ref, "call:") && strings.HasPrefix(key, "call:") && (strings.HasSuffix(key, "/"+ref[5:]) || key[5:] == ref[5:])) ||
+		(strings.HasPrefix(ref, "local:") && strings.HasPrefix(key, "local:") && (strings.HasSuffix(key, "/"+ref[6:]) || key[6:] == ref[6:]))
+}
+
+// chanInvsFor: the channel invariants declared for the channel ch denotes
+func (e *Engine) chanInvsFor(ch ssa.Value) []*ChanInv {
+	key := chanKey(ch)
+	if key == "" {
+		return nil
+	}
+	var out []*ChanInv
+	for _, ci := range e.DB.ChanInvs {
+		if chanRefMatches(ci.Ref, key) {
+			out = append(out, ci)
+		}
+	}
+	return out
+}
+
+// chanInvTerm evaluates a channel invariant for the value term v of type t
+func (g *vcgen) chanInvTerm(ci *ChanInv, v string, t types.Type) (string, error) {
+	var pkg *types.Package
+	if p, ok := g.eng.AllPkgs[ci.Pkg]; ok {
+		pkg = p.Types
+	}
+	env := &cenv{g: g, vars: map[string]cval{"v": {term: v, typ: t, sort: g.s.sortOf(t)}}, cur: g.st, pkg: pkg, ctx: "chaninv " + ci.Ref}
+	return env.EvalBool(ci.Pred)
+}
+
+// chanClosable: some close(ch) in the loaded program closes this channel (a receive may then yield the zero value)
+func (e *Engine) chanClosable(ref string) bool {
+	if e.closable == nil {
+		e.closable = map[string]bool{}
+		for _, fn := range e.AllFuncs {
+			if fn.Blocks == nil || !e.InModule(fn) {
+				continue
+			}
+			for _, b := range fn.Blocks {
+				for _, ins := range b.Instrs {
+					call, ok := ins.(ssa.CallInstruction)
+					if !ok {
+						continue
+					}
+					if bi, ok := call.Common().Value.(*ssa.Builtin); ok && bi.Name() == "close" && len(call.Common().Args) == 1 {
+						if k := chanKey(call.Common().Args[0]); k != "" {
+							e.closable[k] = true
+						} else {
+							e.closable["?"] = true
+						}
+					}
+				}
+			}
+		}
+	}
+	if e.closable["?"] {
+		return true
+	}
+	for k := range e.closable {
+		if chanRefMatches(ref, k) {
+			return true
+		}
+	}
+	return false
+}
+
+// assumeChanInv: a value received from ch satisfies the channel's invariants (or is the zero value of a closed channel)
+func (g *vcgen) assumeChanInv(ch ssa.Value, v string, cond string) {
+	et := ch.Type().Underlying().(*types.Chan).Elem()
+	for _, ci := range g.eng.chanInvsFor(ch) {
+		t, err := g.chanInvTerm(ci, v, et)
+		if err != nil {
+			g.unsupported("chaninv %s: %v", ci.Ref, err)
+			continue
+		}
+		if g.eng.chanClosable(ci.Ref) {
+			t = fmt.Sprintf("(or %s (= %s %s))", t, v, g.s.zero(et))
+		}
+		g.assume(fmt.Sprintf("(=> %s %s)", cond, t))
+		g.noteAssumption("channel invariant relied on at a receive: " + ci.Ref + " carries only values with " + ci.Src + " (proved at every send inside the verified functions)")
+	}
+}
+
+func (e *Engine) chanEventsFor(kind string, ch ssa.Value) []*EventDecl {
+	key := chanKey(ch)
 	if key == "" {
 		return nil
 	}
@@ -2104,7 +2217,7 @@ func (e *Engine) chanEventsFor(kind string, ch ssa.Value) []*EventDecl {
 	var out []*EventDecl
 	for _, n := range names {
 		ev := e.DB.Events[n]
-		if ev.Chan == kind && (ev.Callee == key || strings.HasSuffix(key, "."+ev.Callee) || strings.HasSuffix(key, "/"+ev.Callee) || (strings.HasPrefix(ev.Callee, "call:") && strings.HasPrefix(key, "call:") && (strings.HasSuffix(key, "/"+ev.Callee[5:]) || key[5:] == ev.Callee[5:])) || (strings.HasPrefix(ev.Callee, "local:") && strings.HasPrefix(key, "local:") && (strings.HasSuffix(key, "/"+ev.Callee[6:]) || key[6:] == ev.Callee[6:]))) {
+		if ev.Chan == kind && chanRefMatches(ev.Callee, key) {
 			out = append(out, ev)
 		}
 	}
